@@ -700,9 +700,6 @@ pub(crate) fn run(
                                     let end = inner_slots[(i + 1) * 2 + 1].unwrap();
                                     state.save(slot, start.get());
                                     state.save(slot + 1, end.get());
-                                } else {
-                                    state.save(slot, usize::MAX);
-                                    state.save(slot + 1, usize::MAX);
                                 }
                             }
                             ix = inner_slots[1].unwrap().get();
